@@ -408,11 +408,26 @@ func (hash *SexpHash) HashDelete(key Sexp) error {
 		return nil
 	}
 
-	hash.NumKeys--
 	for i, pair := range arr {
 		res, err := hash.Env.Compare(pair.Head, key)
 		if err == nil && res == 0 {
-			hash.Map[hashval] = append(arr[0:i], arr[i+1:]...)
+			// only a key that is present changes the hash: take
+			// the pair out of its bucket, and keep NumKeys and
+			// KeyOrder in step with the Map.
+			rest := append(arr[0:i:i], arr[i+1:]...)
+			if len(rest) == 0 {
+				delete(hash.Map, hashval)
+			} else {
+				hash.Map[hashval] = rest
+			}
+			hash.NumKeys--
+			for j, k := range hash.KeyOrder {
+				r, err := hash.Env.Compare(k, pair.Head)
+				if err == nil && r == 0 {
+					hash.KeyOrder = append(hash.KeyOrder[:j:j], hash.KeyOrder[j+1:]...)
+					break
+				}
+			}
 			break
 		}
 	}
